@@ -239,6 +239,29 @@ def pending_key(ctx, rule='C02.pending-key'):
     return res
 
 
+SUBSLICE = {'index', 'index_mut', 'get', 'get_mut', 'split_at', 'split_at_mut', 'split_first', 'split_last', 'take', 'skip', 'step_by', 'chunks', 'first', 'last',
+            'truncate', 'get_unchecked', 'split_off', 'drain', 'take_while', 'skip_while', 'filter', 'nth', 'windows', 'rchunks', 'chunks_exact'}
+
+
+def _is_subslice(fn, atom):
+    """is the call atom an operation that yields only part of a [u64] / Vec<u64> / iterator over it?"""
+    name = last_seg(strip_generics(atom[2]))
+    if name not in SUBSLICE:
+        return False
+    t = fn.term(atom[1])
+    c = callee_of(t)
+    st = (c.get('self_ty') or '') if c else ''
+    if 'u64' in st and ('[' in st or 'Vec<' in st or 'Iter' in st):
+        return True
+    if t['args']:
+        from facts import op_local
+        l = op_local(t['args'][0])
+        if l is not None:
+            ty = fn.locals[l]['ty']
+            return 'u64' in ty and ('[u64]' in ty or 'Vec<u64>' in ty or 'Iter<' in ty)
+    return False
+
+
 def reload_rule(ctx, rule='C02.reload'):
     res = []
     try:
@@ -263,7 +286,13 @@ def reload_rule(ctx, rule='C02.reload'):
         _, atoms = du.slice_operand(t['args'][1])
         from_hdr = has_call(atoms, hdr.path)
         from_field = has_field(atoms, 'Meta', 'freelist_page')
-        if from_hdr and from_field:
+        # the whole persisted list must be loaded: the slice handed over is the free-list view itself, not a part of it
+        cut = sorted({last_seg(strip_generics(a[2])) for a in atoms if a[0] == 'call' and _is_subslice(dbopen, a)})
+        if from_hdr and from_field and cut:
+            res.append(bad(rule, '%s | persisted free list loaded only in part (%s)' % (dbopen.qual, ','.join(cut)),
+                           'the list handed to %s at %s is cut down with `%s` before it is loaded: a free list that spans overflow pages loses its tail on every reopen, the '
+                           'next commit persists the shortened list and the dropped pages are never reused' % (ini.qual, dbopen.loc(bb), ', '.join(cut)), where=dbopen.loc(bb)))
+        elif from_hdr and from_field:
             res.append(ok(rule, 'the list loaded at %s is read from the page named by the header that header selection returned' % dbopen.loc(bb), sites=1))
         else:
             res.append(bad(rule, '%s | free list not read through the chosen header' % dbopen.qual,
@@ -360,6 +389,7 @@ def run(ctx, tier):
     results += alternate_rule(ctx)
     import c12
     results += c12.select_total(ctx, rule='C02.select')
+    results += c12.checksum_total(ctx, rule='C02.checksum-total')
     return dict(
         results=results,
         stats=dict(ctx.stats),
@@ -369,7 +399,7 @@ def run(ctx, tier):
             'written after the header, (O3) a successful return implies a propagated sync after the header; the creation path syncs before returning; '
             'commit writes only pages from the transaction allocation map whose ids come from the free set or the high-water mark (copy-on-write); the '
             'free set gains pages only through release/load-on-open and freed pages are filed as pending under the writer\'s transaction id; the header '
-            'slot alternates; header selection consults both validity bits; the free list is reloaded through the chosen header. NOT decided: that the '
+            'slot alternates; header selection consults both validity bits; the checksum covers every header field (a torn header write is detectable); the free list is reloaded through the chosen header. NOT decided: that the '
             'pages chosen are really unreachable from the current header (value invariant), torn-sector behaviour of the checksum, fsync semantics.'),
         assumptions=['File::sync_all/sync_data make preceding writes durable (POSIX fsync)', 'write_all on a File issues write(2) in program order',
                      'only the cfg(unix) library target is analysed'])
